@@ -235,6 +235,11 @@ def attribute(plan, diff, real, ref, mode):
             return Violation(PROP, 'once-in-order', f'fetch-sequence-differs:{mode}',
                              {'real': a, 'expected': b, 'index': ix})
         return Violation(PROP, 'order', f'history-differs-after-include:{mode}', {'real': a, 'expected': b, 'index': ix})
+    if kind == 'error' and diff[2] is not None and diff[2][0] == 'rt' and str(diff[2][1]).startswith('Include of "'):
+        # an include that fails without any fetch (no fetch function configured): the error must still name the
+        # resolved location
+        return Violation(PROP, 'errors', f'include-error-differs:{mode}', {'real': diff[1], 'expected': diff[2],
+                                                                          'has_fetch': plan.get('has_fetch', True)})
     if not any(e[0] == 'fetch' for e in fe) and not any(e[0] == 'fetch' for e in re_):
         return None
     if kind == 'error':
